@@ -1121,6 +1121,15 @@ def _simplify_tree(tree: Any) -> Any:
 
 
 def _candidates(case: dict[str, Any]) -> Any:
+    if case.get("kind") == "scheck":
+        co = case["coef"]
+        for i, c in enumerate(co):
+            for smaller in (1, -1, 0, c // 2):
+                if abs(smaller) < abs(c) and not (smaller == 0 and case["shape"] != "pole" and i in (0, 2)):
+                    yield {**case, "coef": co[:i] + [smaller] + co[i + 1:]}
+        if case["form"] != "eq":
+            yield {**case, "form": "eq"}
+        return
     if "terms" in case:
         terms = case["terms"]
         for i in range(len(terms)):
